@@ -116,10 +116,11 @@ def sanitize(c, automatic, in_group=False, explicit=False):
             if e['k'] == 'nested':
                 sanitize(e['c'], automatic, group, explicit)
                 no_defaults(e['c'])
+    # (being nested inside a group does not make the additions of this type group members)
     for m in c['root']:
-        fix_member(m, False, in_group)
+        fix_member(m, False, False)
     for m in c['adds']:
-        fix_member(m, True, in_group)
+        fix_member(m, True, False)
 
 
 def no_defaults(c):
@@ -190,7 +191,8 @@ def build_cases(ck):
         ms = MG.gen_module_set(rng, k, nmods=rng.randint(1, 4), max_defs=7)
         add(MG.render(ms, split_sources=rng.random() < 0.3), 'module-set')
     for i, body in enumerate(RECURSIVE):
-        for tagging in (['AUTOMATIC TAGS'] if quick else ['AUTOMATIC TAGS', 'EXPLICIT TAGS', '']):
+        for tagging in (['AUTOMATIC TAGS'] if quick or 'Pp ::=' in body else ['AUTOMATIC TAGS', 'EXPLICIT TAGS', '']):
+            # (mutually recursive untagged CHOICEs have no well-defined tag sets outside AUTOMATIC TAGS)
             add(['Mr%d DEFINITIONS %s ::= BEGIN\n%s\nEND\n' % (i, tagging, body.replace('  ', '\n'))], 'recursive')
     for slug, tagging, body in KNOWN_PROBES:
         add(['Mk DEFINITIONS %s ::= BEGIN\n%s\nEND\n' % (tagging, body)], 'known-probe', known=slug)
